@@ -8,6 +8,7 @@
        name generation (the counter skips names that are taken), DataNode::PutChild -- the same call SetDataNode makes for a
        new leaf, so the tree / notification effect is that of PR_COMMAND_SETDATA of the generated paths -- and the insertion
        into the index before the LAST entry with the given name, else at the end; PR_NAME_REMOVE_FROM_INDEX: no index entry;
+     PR_COMMAND_SETDATA with SETDATANODE_FLAG_ADDTOINDEX in PR_NAME_FLAGS (SetDataNode -> InsertOrderedChild with the given name);
      PR_COMMAND_REORDERDATA / ReorderDataCallback / DataNode::ReorderChild: each (key, move-before) field on its own;
      DataNode::RemoveChild -> RemoveIndexEntry and the reset of a recycled node (DataNode::Init; F55): after every command
        the entries of nodes and children that are gone are dropped ([oprune]).
@@ -103,6 +104,7 @@ Inductive ocmd :=
 | OX (c : xcmd)                                                                  (* everything of Refl/IsoModel.v (batches: OBatch) *)
 | OInsert (key : spath * option qfilter) (items : list (option name * payload))  (* PR_COMMAND_INSERTORDEREDDATA, one key *)
 | OReorder (fields : list (spath * option name))                                 (* PR_COMMAND_REORDERDATA *)
+| OSetIdx (flags : N) (items : list (bool * list name * payload))                (* PR_COMMAND_SETDATA, PR_NAME_FLAGS with ADDTOINDEX *)
 | OBatch (l : list ocmd).                                                        (* PR_COMMAND_BATCH *)
 
 Definition key_matcher (key : spath * option qfilter) : matcher := m_of_list [(unslash (fst key), snd key)].
@@ -140,6 +142,25 @@ Definition do_reorder (os : oserver) (ss : session) (fields : list (spath * opti
                         fields (o_idx os) in
   oprune (mkO (o_x os) idx' (o_ctr os)).
 
+(* SetDataNode(path, data, flags) with SETDATANODE_FLAG_ADDTOINDEX, for one field value: the intermediate nodes are created as
+   always; a leaf that is not there is created by DataNode::InsertOrderedChild(data, "", name, this, QUIET ? NULL : this) --
+   DataNode::PutChild as for any new node: the marks of all subscribed sessions are placed, the change is announced unless
+   QUIET -- and appended to its parent's index; a leaf that is there is left alone, data included (the SetData step is skipped),
+   which is what SETDATANODE_FLAG_DONTOVERWRITEDATA does in Refl/Server.v.  (Appended: no child is named "".) *)
+Definition set_idx_item (nest : nat) (ss : session) (flags : N) (os : oserver) (it : bool * list name * payload) : oserver :=
+  let x := o_x os in
+  let rel := snd (fst it) in
+  let p := session_dir ss ++ rel in
+  let fresh := negb (fst (fst it)) && negb (has_node (sv_tree (xs_sv x)) p) && match rel with [] => false | _ => true end in
+  let x' := xhandle fx nest x (s_id ss) (XSetData (N.setbit flags c_SETDATANODE_FLAG_DONTOVERWRITEDATA) [it]) in
+  let parent := session_dir ss ++ removelast rel in
+  mkO x' (if fresh && has_node (sv_tree (xs_sv x')) p
+          then idx_set (o_idx os) parent (idx_get (o_idx os) parent ++ [last rel 0%N]) else o_idx os)
+      (o_ctr os).
+
+Definition do_set_idx (nest : nat) (os : oserver) (ss : session) (flags : N) (items : list (bool * list name * payload)) : oserver :=
+  oprune (fold_left (set_idx_item nest ss flags) items os).
+
 Definition opush (os : oserver) : oserver :=
   mkO (with_sv (o_x os) (push_all (xs_sv (o_x os)))) (o_idx os) (o_ctr os).
 
@@ -151,6 +172,7 @@ Fixpoint ohandle (nest : nat) (os : oserver) (s : sid) (c : ocmd) : oserver :=
     | OX xc => oprune (mkO (xhandle fx nest (o_x os) s xc) (o_idx os) (o_ctr os))
     | OInsert key items => do_insert nest os ss key items
     | OReorder fields => do_reorder os ss fields
+    | OSetIdx flags items => do_set_idx nest os ss flags items
     | OBatch l =>
       if Nat.ltb nest max_batch_nest then
         (fix go (l : list ocmd) (os : oserver) : oserver :=
